@@ -36,6 +36,7 @@ def run(ctx):
     ctx.rule("R04.3", "numbers are kept as the exact decimal written: LefDecimal values come from Decimal::from_str on the token text, never through f64; mantissa() is only read at scale 0")
     from rules import mergerules as mr
     mr.rule_no_overwrite_in_loop(ctx, "R04.1c", ["lef21::read::"], floor=10)
+    lr.rule_text_verbatim(ctx, "R04.5")
     parsers = [f for f in F.fns.values() if f.id.startswith(PARSER) and f.kind != "Closure" and "LefParser" in f.name and not f.derived]
     n_steps = 0
     n_fields = 0
